@@ -460,6 +460,12 @@ def _run_stream(ctx, prop, n_models, regimes=("calibrated", "extreme", "boundary
         else:
             ctx.brk("correspondence", f"extracted net fails wfCheck (the implementation built a net the theorems do not cover): {wf}", stage="wf", case=key)
             continue
+        if prop in ("C03", "C06"):
+            try:
+                from . import agg_corr
+                agg_corr.check(ctx, [prop], spec, m, m._verif_parset, key)
+            except Exception as e:  # the oracle itself must never abort the run
+                ctx.notes.append("agg_corr: " + repr(e)[:200])
         brs = compare_trace(ctx, spec, m, net, key) + compare_flush(ctx, m, net)
         ors, illposed = oracles(m, net)
         if illposed:
